@@ -87,8 +87,8 @@ iovec_aggregate_ex(iovec_p iov, size_t iov_cnt, size_t data_size, size_t off,
 	if (0 == iov_cnt || 0 == ret_cnt || 0 == data_size ||
 	    (iov[0].iov_len - off) >= data_size ||
 	    (1 == iov_cnt && 0 == (iov[0].iov_len - off))) {
-		if (NULL != reminder_data_size_ret) {
-			(*reminder_data_size_ret) = 0;
+		if (NULL != reminder_data_size_ret) { /* Nothing consumed. */
+			(*reminder_data_size_ret) = data_size;
 		}
 		return (0);
 	}
@@ -631,8 +631,11 @@ r_buf_data_get(r_buf_p r_buf, r_buf_rpos_p rpos, size_t data_size,
 		ret = iovec_aggregate_ex(&r_buf->iov[rpos->iov_index],
 		    (1 + r_buf->iov_index_max - rpos->iov_index), data_size,
 		    rpos->iov_off, iov, iov_cnt, &tm);
-		ret += iovec_aggregate_ex(r_buf->iov, (1 + r_buf->iov_index),
-		    tm, 0, &iov[ret], (iov_cnt - ret), &tm);
+		if (0 != ret) { /* Previous round tail first, do not jump over it. */
+			ret += iovec_aggregate_ex(r_buf->iov,
+			    (1 + r_buf->iov_index), tm, 0, &iov[ret],
+			    (iov_cnt - ret), &tm);
+		}
 	}
 return_ok:
 	if (NULL != drop_size_ret) {
